@@ -4,13 +4,41 @@ import json, os
 HERE = os.path.dirname(os.path.dirname(os.path.abspath(__file__)))
 props = [json.loads(l) for l in open(os.path.join(HERE, "properties.jsonl"))]
 
-CHECKS = {
- "C05": dict(
-   technique="static analysis: path-sensitive MIR dataflow + reference-function agreement (E5), no execution, no solver",
-   design_ref="DESIGN.md §4 C05",
-   text="All CFG paths of OrderType::match_against (loop-free) are walked over its MIR with term values; for each of the 7 variants every path is compared with the paths of a reference function transcribed from the property text (equal outputs as affine terms under the union of path facts), plus identity-field preservation, arithmetic-guard and conservation rules. Because the function is loop-free and every non-contradictory path is compared, agreement is an all-inputs statement about the function's source; it is a static argument, not a run.",
-   note="Trusted: rustc MIR construction, the walker's models of Ord::min / Option::unwrap_or / Clone / checked arithmetic; precondition displayed+hidden <= u64::MAX. Path-pair infeasibility is only detected syntactically, so an exotic refactor of a comparison could produce a spurious report (never a miss)."),
-}
+CHECKS = {}
+T_PATH = "static analysis: path-sensitive term-valued dataflow over exported MIR (custom rustc_private driver), effect/ownership rules; no execution, no solver"
+T_REF = "static analysis: path-sensitive MIR dataflow + reference-function agreement; no execution, no solver"
+T_EFF = "static analysis: effect / call-graph closure and pairing-ordering rules over MIR (custom rustc_private driver); no execution"
+NOTE = "Trusted: rustc MIR construction, the exporter, the walker's models of std helpers (Arc/Clone/Try/min/saturating_*), dashmap/crossbeam/serde behaving as documented. Infeasible paths are only pruned syntactically (can cause a spurious report, never a miss)."
+
+def add(pid, technique, design, text, note=NOTE):
+    CHECKS[pid] = dict(technique=technique, design_ref=design, text=text, note=note)
+
+add("C01", T_PATH, "DESIGN.md §4 C01",
+    "Conservation ledger: on every CFG path of add_order, match_order (per loop iteration, match_against inlined) and update_order (all five arms) the affine sum of the fetch_add/fetch_sub operands on each aggregate equals the display/hidden/count contribution of the orders pushed minus those taken; constructors are zero+empty or derive the counters from the refreshed snapshot they queue; re-adding constructors only use new()+add_order. This decides the inductive step of the invariant for every order type and parameter value (a necessary and, with unique ids, sufficient condition); histories are not executed.")
+add("C02", T_PATH, "DESIGN.md §4 C02",
+    "Loop invariant 'sum of transaction quantities + remaining = requested' as an affine identity on every iteration path of match_order; provenance of each Transaction::new argument (fresh id from the generator passed in, taker param, popped maker id, self.price, consumed, opposite side); transaction iff consumed>0; filled list iff traded and left; add_transaction agrees with a reference; ledger balance for the per-order lifetime bound. Static necessary conditions of the accounting statement; id uniqueness is C14's.")
+add("C03", T_EFF, "DESIGN.md §4 C03",
+    "Ownership discipline that makes quantity conservation schedule-independent: every counter delta and every re-queued order is a function of values the operation exclusively owns (payload of pop/remove), applied with atomic RMWs, balanced without any lookup/removal aliasing, and OrderQueue hands an entry out only through its own map removal. Sufficient on paper given linearizable containers; no interleaving is enumerated.")
+add("C04", T_EFF, "DESIGN.md §4 C04",
+    "Necessary structural conditions of time priority only: FIFO shape of push/pop, order-preserving constructors, insertion only through push, forward drain of parked orders; the two structural deviations of the pinned tree (tail re-queue of an unreplenished survivor, stale tickets) are reported as known findings. The priority relation over histories is not decided.")
+add("C05", T_REF, "DESIGN.md §4 C05",
+    "All CFG paths of OrderType::match_against (loop-free) are walked over its MIR with term values; for each of the 7 variants every path is compared with the paths of a reference function transcribed from the property text (equal outputs as affine terms under the union of path facts), plus identity-field preservation, arithmetic-guard and conservation rules. Because the function is loop-free and every non-contradictory path pair is compared, agreement is an all-inputs statement about the source.")
+add("C06", T_PATH, "DESIGN.md §4 C06",
+    "Termination structure of match_order: exits classified by path facts (remaining==0 or queue reported empty), a lexicographic variant (entries, hidden, remaining) provably decreasing on every iteration path that re-inserts the popped order, parked orders provably display 0 and are drained on every exit, OrderQueue::pop consumes a ticket per retry. With C05 this implies on paper that a match returning with quantity left has exhausted displayed liquidity (single-threaded).")
+add("C07", T_EFF, "DESIGN.md §4 C07",
+    "Purity of 39 read-only entry points by effect closure over the whole-crate call graph (closed world: private fields, checked); dispatch table of update_order (one remove of the own id, result returned as is, price test against self.price, error/not-found without effects), amend returns what it pushed and rewrites the display exactly as the reference for with_reduced_quantity says. Structural necessary conditions, decided on all paths.")
+add("C08", T_EFF, "DESIGN.md §4 C08",
+    "Publish order inside push (map insert before ticket), every map entry ticketed (who-may-call on the two containers), single hand-out through the map removal, nothing dropped (balance without aliasing, parked orders drained), private storage. Sufficient on paper for 'exactly one taker' given linearizable containers; no schedule is explored.")
+add("C11", T_EFF, "DESIGN.md §4 C11",
+    "One necessary condition: does the snapshot's order list encode queue position at all (known finding: it is sorted by user timestamp), plus order preservation of the restore path and that nothing else re-orders the listing. Behavioural equivalence over continuations is not statically decided.")
+add("C12", T_EFF, "DESIGN.md §4 C12",
+    "Ordering rules on every path: counters raised before the order is published, lowered only after it has been taken, decrements bounded by the owned order's contribution, atomic RMW only, each step balanced. These keep 'counter >= entries + in flight' inductive, so no reader can see a wrapped value; argued for sequentially consistent atomics.")
+add("C13", T_EFF, "DESIGN.md §4 C13",
+    "Typestate-like rules: an order that stays in the book must not leave the id map (two sites do, by construction: known findings), a successful cancel returns the very payload of the map removal for the update's own id, not-found only after a lookup that missed. May-property of sites; no schedule is explored.")
+add("C15", T_EFF, "DESIGN.md §4 C15",
+    "Pairing rules: record_order_added once per add, record_order_removed once exactly on removal paths, record_execution once per maker visit with the transaction's quantity and the level/maker price; recorder and getter bodies use a single fetch_add/load on the field they name (no lost updates); only statistics.rs writes the named counters.")
+add("C19", T_EFF, "DESIGN.md §4 C19",
+    "Shape of a ticketed FIFO over one id map on every path of every OrderQueue method: push/pop/remove/find primitives, constructors iterate forward and push each element once, len/is_empty/to_vec/Serialize read the map (never the ticket queue), listing = collect over map iteration sorted by timestamp, nobody else touches the containers. Stale tickets reported as a known finding. Pop order over arbitrary call sequences is not executed.")
 
 def main():
     checks = []
